@@ -19,7 +19,7 @@ RULE = ('case = outcome word over {delivered+acked, uplink lost, ack lost} (ALL 
         'submission schedule, observed frame-sequence hash).')
 ASSUMPTIONS = ['peer model = nRF51 ESB safelink rules (see vf/radiosim.py)', 'each transmission costs 1 ms of virtual time',
                'null packet = header 0xFF/0xF3 with empty payload; the 3-byte ff 05 01 negotiation frame is not data']
-REQUIRED = ['mon.downlink_link_service_packets_with_data', 'mon.acknowledgements_without_payload', 'mon.words_exhaustive', 'mon.random_words', 'mon.uplink_packets', 'mon.downlink_packets', 'mon.downlink_header_only_packets', 'mon.uplink_header_only_packets', 'mon.link_errors_expected',
+REQUIRED = ['mon.slow_link_cases_without_error_callback', 'mon.packets_refused_after_waiting_for_the_queue', 'mon.downlink_link_service_packets_with_data', 'mon.acknowledgements_without_payload', 'mon.words_exhaustive', 'mon.random_words', 'mon.uplink_packets', 'mon.downlink_packets', 'mon.downlink_header_only_packets', 'mon.uplink_header_only_packets', 'mon.link_errors_expected',
             'mon.negotiation_loss_cases', 'mon.no_safelink_cases', 'mon.full_stack_cases', 'mon.multi_submitter_cases',
             'mon.second_start_up_of_the_same_driver_object']
 EXHAUSTIVE = {'quick': False, 'thorough': False}
@@ -43,6 +43,8 @@ def cases(tier, seed):
         out.append({'part': 'negotiation', 'lost': j, 'seed': seed})
     for i in range(16 if tier == 'quick' else 80):
         out.append({'part': 'stack', 'seed': seed * 100003 + i})
+    for i in range(4 if tier == 'quick' else 24):
+        out.append({'part': 'slow', 'seed': seed * 1013 + i})
     return out
 
 
@@ -64,7 +66,7 @@ def mkpk(uid, rnd, header_only_ok=False, link_service_ok=False):
 
 
 def one(ctx, word, n_up, n_down, sub_pos, down_pos, N, safelink=True, nsub=1, sseed=0, policy='random', label='w',
-        garbage=False, settle=40, prior=False):
+        garbage=False, settle=40, prior=False, cost=0.001, no_cb=False):
     """Run the radio thread over one outcome word.  sub_pos[i] / down_pos[i]: transmission count at which uplink
     packet i is submitted / downlink packet i is queued in the Crazyflie."""
     from vf import detsched as ds, radiosim
@@ -75,7 +77,7 @@ def one(ctx, word, n_up, n_down, sub_pos, down_pos, N, safelink=True, nsub=1, ss
     ups = [mkpk(1000 + i, rnd, header_only_ok=(nsub == 1)) for i in range(n_up)]
     downs = [mkpk(2000 + i, rnd, header_only_ok=True, link_service_ok=True) for i in range(n_down)]
     peer = radiosim.Peer(supports_safelink=safelink, echo_garbage=garbage, bare_idle=((sseed // 2) % 3 == 0))
-    radio = radiosim.ScriptedRadio(peer, [SYM[x] if isinstance(x, int) else x for x in word])
+    radio = radiosim.ScriptedRadio(peer, [SYM[x] if isinstance(x, int) else x for x in word], cost=cost)
     ob = {'errors': [], 'accepted_by_send': [], 'received': [], 'needs_resending': None, 'refused': []}
     old_N = rd._nr_of_retries
 
@@ -84,7 +86,7 @@ def one(ctx, word, n_up, n_down, sub_pos, down_pos, N, safelink=True, nsub=1, ss
         drv = rd.RadioDriver()
         drv.in_queue = rd.queue.Queue()
         drv.out_queue = rd.queue.Queue(1)
-        drv.link_error_callback = lambda msg: ob['errors'].append((radio.n, 'send:' + msg[:30]))
+        drv.link_error_callback = None if no_cb else (lambda msg: ob['errors'].append((radio.n, 'send:' + msg[:30])))
         if prior:
             # an earlier start-up of the SAME driver object (pause()/restart(), close()/connect()) in which the peer
             # confirmed safelink; the judged start-up below is a new negotiation and must stand on its own
@@ -251,8 +253,12 @@ def one(ctx, word, n_up, n_down, sub_pos, down_pos, N, safelink=True, nsub=1, ss
                 V('radio:not-drained-after-losses-stopped', {'uplink': (len(got_up), len(want_up)), 'downlink': (len(rec), len(downs))})
     else:
         ctx.count('mon.no_safelink_cases')
-    if ob['refused']:
+    if ob['refused'] and not no_cb:
         V('radio:send_packet-refused-a-packet-on-a-working-link', {'refused': ob['refused']})
+    if no_cb:
+        # (slow link, no error callback installed: a packet that waited two seconds for the queue is refused - then
+        # the send call says so, and what it did accept is judged above)
+        ctx.count('mon.packets_refused_after_waiting_for_the_queue', len(ob['refused']))
     return (info['word'], core.h64([e[1].hex() for e in log]))
 
 
@@ -323,6 +329,20 @@ def run(desc, ctx):
             if r:
                 ctx.nontrivial(('nego', j, variant, r[1]))
         first = {'negotiation_exchanges_lost': j}
+    elif part == 'slow':
+        # a link that is slow and lossy for seconds without failing (limit far away), opened without an error callback
+        # (the way get_link_driver(uri) opens it): the application submits packets faster than they go out
+        for variant in range(2):
+            streak = rnd.randint(230, 320)
+            w = [0] * rnd.randint(3, 8) + [rnd.choice((1, 2)) for _ in range(streak)]
+            at = len(w) - streak
+            n_up = rnd.randint(3, 5)
+            r = one(ctx, w, n_up, 1, [at + i for i in range(n_up)], [at + 2], 1000, True, 1, desc['seed'] * 7 + variant, 'random',
+                    'slow-link-without-error-callback', settle=60, cost=0.01, no_cb=True)
+            ctx.count('mon.slow_link_cases_without_error_callback')
+            if r:
+                ctx.nontrivial(('slow', streak, n_up, r[1]))
+        first = {'slow_link_cases': 2}
     elif part == 'stack':
         run_stack(desc, ctx, rnd)
         return
